@@ -263,12 +263,12 @@ CHECKS["C13"] = {
 
 ENGINES = [
     {"name": "sched", "path": "/verif/sched + /verif/shim + /verif/instr", "serves_properties": ["C18"],
-     "kind_free_text": "Engine B: controlled scheduler over sources instrumented at check time (go build -overlay): stateless DFS over all schedules with at most k preemptions, prefix replay, work stealing between shard processes"},
-    {"name": "enum", "path": "/verif/checks/c10 c11 c17 c20", "serves_properties": ["C03", "C05", "C10", "C11", "C17", "C20"],
+     "kind_free_text": "Engine B: controlled scheduler over sources instrumented at check time (go build -overlay): stateless DFS over all schedules with at most k preemptions, prefix replay, work stealing between shard processes; also serves the schedule halves of C02, C04, C15, C16 (checks/bsem)"},
+    {"name": "enum", "path": "/verif/checks/c10 c11 c17 c20", "serves_properties": ["C03", "C05", "C09", "C10", "C11", "C17", "C20"],
      "kind_free_text": "Engine C: bounded-exhaustive enumeration of inputs / configurations / segmentations of sequential functions against an independent RFC reference"},
-    {"name": "vtx", "path": "/verif/vtx", "serves_properties": ["C01", "C02", "C04", "C06", "C07", "C08", "C19"],
+    {"name": "vtx", "path": "/verif/vtx", "serves_properties": ["C01", "C02", "C04", "C06", "C07", "C08", "C12", "C13", "C15", "C16", "C19"],
      "kind_free_text": "Engine A: explicit-state search over event histories of the real turn.Server/turn.Client in virtual time (testing/synctest) over an in-memory network, reference model + probe sweep after every event"},
 ]
 
-_PENDING = "check not built yet (work in progress in this session; the design in DESIGN.md §5 covers it)"
+_PENDING = "check being integrated (built by a builder agent, not yet registered); the technique applies, see DESIGN.md section 5"
 NOT_APPLICABLE = {f"C{i:02d}": _PENDING for i in range(1, 21)}
